@@ -210,18 +210,21 @@ func runC16(c *Ctx) {
 		c.Ob("R16.1", d+": Parser.Reset", out.Term == "return" && got == want && len(out.Events) == 0, fmt.Sprintf("events=[%s] stores=%v %s; required [%s]", got, out.Events, out.Undecided, want), p.FnPos(reset))
 		// (c) stack.reset truncates every field of the stack
 		sf := structFieldNames(sp, "stack")
-		rs := recvFieldStores(sreset)
 		for _, f := range sf {
-			v, ok := rs[f]
-			okTrunc := false
-			if ok {
-				if sl, isSl := v.(*ssa.Slice); isSl {
-					if hi, isC := sl.High.(*ssa.Const); isC && hi.Int64() == 0 && (sl.Low == nil || isZeroConst(sl.Low)) {
-						okTrunc = true
-					}
+			vals := allRecvFieldStores(sreset, f)
+			okTrunc := len(vals) > 0
+			for _, v := range vals {
+				if !emptySliceValue(v) {
+					okTrunc = false
 				}
 			}
-			c.Ob("R16.1", fmt.Sprintf("%s: stack.reset truncates %s", d, f), okTrunc, "every field of the parse stack must be emptied by reset (a field that keeps history would leak into the next Parse)", p.FnPos(sreset))
+			// on every path to the return some store must have happened: with one store this is
+			// the entry block; with several, each must be an emptying store (checked above) and the
+			// stores together must cover all paths
+			if !storesCoverAllPaths(sreset, f) {
+				okTrunc = false
+			}
+			c.Ob("R16.1", fmt.Sprintf("%s: stack.reset empties %s", d, f), okTrunc, fmt.Sprintf("every field of the parse stack must be left empty (length 0) by reset on every path — %d store(s) found; a field that keeps history, or a slice that is re-made with a non-zero length, leaks into the next Parse", len(vals)), p.FnPos(sreset))
 		}
 		// (d) every other field of Parser: never read, or assigned in the prologue / read-only Context
 		for _, f := range structFieldNames(sp, "Parser") {
@@ -279,4 +282,74 @@ func runC16(c *Ctx) {
 func isZeroConst(v ssa.Value) bool {
 	c, ok := v.(*ssa.Const)
 	return ok && c.Value != nil && c.Int64() == 0
+}
+
+func allRecvFieldStores(fn *ssa.Function, field string) []ssa.Value {
+	var out []ssa.Value
+	if len(fn.Params) == 0 {
+		return out
+	}
+	recv := fn.Params[0]
+	for _, b := range fn.Blocks {
+		for _, in := range b.Instrs {
+			if st, ok := in.(*ssa.Store); ok {
+				if fa, ok := st.Addr.(*ssa.FieldAddr); ok && fa.X == ssa.Value(recv) && fieldVar(fa).Name() == field {
+					out = append(out, st.Val)
+				}
+			}
+		}
+	}
+	return out
+}
+
+// emptySliceValue: x[:0], x[0:0] or make(T, 0, n).
+func emptySliceValue(v ssa.Value) bool {
+	switch x := v.(type) {
+	case *ssa.Slice:
+		hi, isC := x.High.(*ssa.Const)
+		return isC && hi.Int64() == 0 && (x.Low == nil || isZeroConst(x.Low))
+	case *ssa.MakeSlice:
+		return isZeroConst(x.Len)
+	case *ssa.Const:
+		return x.Value == nil // nil slice
+	}
+	return false
+}
+
+// storesCoverAllPaths: every return of fn is dominated by the union of blocks
+// storing to the field, i.e. no path from entry to a return avoids all of them.
+func storesCoverAllPaths(fn *ssa.Function, field string) bool {
+	storing := map[*ssa.BasicBlock]bool{}
+	recv := fn.Params[0]
+	for _, b := range fn.Blocks {
+		for _, in := range b.Instrs {
+			if st, ok := in.(*ssa.Store); ok {
+				if fa, ok := st.Addr.(*ssa.FieldAddr); ok && fa.X == ssa.Value(recv) && fieldVar(fa).Name() == field {
+					storing[b] = true
+				}
+			}
+		}
+	}
+	// reachability from entry without passing a storing block
+	seen := map[*ssa.BasicBlock]bool{}
+	var walk func(b *ssa.BasicBlock) bool
+	walk = func(b *ssa.BasicBlock) bool {
+		if storing[b] || seen[b] {
+			return true
+		}
+		seen[b] = true
+		if len(b.Succs) == 0 {
+			if _, isRet := b.Instrs[len(b.Instrs)-1].(*ssa.Return); isRet {
+				return false
+			}
+			return true
+		}
+		for _, s := range b.Succs {
+			if !walk(s) {
+				return false
+			}
+		}
+		return true
+	}
+	return walk(fn.Blocks[0])
 }
